@@ -112,7 +112,13 @@ func ruleFindings(r *Run) []Finding {
 			continue
 		}
 		for _, v := range e.Viol {
-			fs = addFinding(fs, v.Rule+"@"+v.Site, v.Detail, e.UE)
+			rule := v.Rule
+			if strings.HasPrefix(rule, "timing.") && r.Scn.Lat.Class == "slow" {
+				// an outcome that overtakes its command because the core is slower than the emulator's
+				// fixed waits is a known limitation; against a prompt core the same rule is a violation
+				rule += "[slow-core]"
+			}
+			fs = addFinding(fs, rule+"@"+v.Site, v.Detail, e.UE)
 		}
 	}
 	return fs
